@@ -191,6 +191,8 @@ def check_cases(ctx, cases):
                 rc, rs, rd = discovery.filter_known_objects(Archive(), lambda o, k: log.append((nid(oid(o)), bool(k))))
         except (RuntimeError, ImplementationHang) as e:
             err = "discovery does not terminate: " + str(e)
+        except Exception as e:
+            err = f"discovery raises {type(e).__name__}: {str(e)[:80]}"
         finally:
             discovery.BaseDiscoveryGraph.do_query = orig
             if saved[0] is None:
@@ -199,7 +201,7 @@ def check_cases(ctx, cases):
                 discovery.set = saved[0]
             discovery.random, discovery.SAMPLE_SIZE = saved[1], saved[2]
         if err:
-            ctx.fail(case, err, "no-termination")
+            ctx.fail(case, err, "no-termination" if "terminate" in err else "discovery-raises")
             impls.append(None)
             reqs.append({"op": "ping"})
             continue
